@@ -134,3 +134,52 @@ Proof.
   split; [split; [repeat constructor|split; [repeat constructor|split; reflexivity]]|].
   split; vm_compute; reflexivity.
 Qed.
+
+(* ---------------------------------------------------------------- several saves of the same object *)
+(* 6. The dirty flag is sticky: whatever history of structural edits, attribute edits and saves
+   precedes it, a save() is the save of a dirty document as soon as that history contains ONE
+   structural edit - so an attribute edit (visible, opacity, offset) made after an earlier save is
+   rendered into the merged image of the next file as well. *)
+Theorem save_after_any_history : forall c hd s pre rd tr ti,
+  session c hd s (pre ++ [SSave rd tr ti]) =
+  session c hd s pre ++
+  [save c hd (fst s || existsb is_struct pre) (snd (state_after c hd s pre)) rd tr ti].
+Proof. exact Proofs.session_save_after. Qed.
+Print Assumptions save_after_any_history.
+
+Theorem dirty_flag_sticky : forall c hd s steps,
+  fst (state_after c hd s steps) = fst s || existsb is_struct steps.
+Proof. exact Proofs.state_after_flag. Qed.
+Print Assumptions dirty_flag_sticky.
+
+(* the history [structural edit; save; attribute edit; save]: both files get a freshly rendered image *)
+Theorem edit_save_edit_save : forall c hd old rd1 t1 i1 rd2 t2 i2,
+  session c hd (false, old) [SStruct; SSave rd1 t1 i1; SAttr; SSave rd2 t2 i2] =
+  [ save c hd true old rd1 t1 i1;
+    save c hd true (match save c hd true old rd1 t1 i1 with Ok d => d | Err _ => old end) rd2 t2 i2 ].
+Proof.
+  intros. cbn [session step_state fst snd].
+  destruct (save c hd true old rd1 t1 i1); reflexivity.
+Qed.
+Print Assumptions edit_save_edit_save.
+
+(* with a reset of the flag after regenerating (a tempting optimisation, NOT the code) the second file
+   of that history keeps the merged image of the first although its layers changed *)
+Theorem reset_variant_stale_refuted : exists hd old rd1 rd2,
+  header_ok hd /\ rendered8 hd rd1 /\ rendered8 hd rd2 /\ unfixed_save_class hd /\
+  rd_straight rd1 <> rd_straight rd2 /\
+  (exists d1, session_reset unfixed hd (false, old) [SStruct; SSave rd1 false 0; SAttr; SSave rd2 false 0]
+              = [Ok d1; Ok d1]) /\
+  (exists d1 d2, session unfixed hd (false, old) [SStruct; SSave rd1 false 0; SAttr; SSave rd2 false 0]
+                 = [Ok d1; Ok d2] /\ get_data d2 hd = Ok (rd_straight rd2 ++ [rd_alpha rd2])).
+Proof.
+  exists (mkH CGray 2 2 1 8), (mkI RAW [0;0;0;0]), (mkRd [[10;20]] [] [255;255]), (mkRd [[30;40]] [] [255;0]).
+  split; [unfold header_ok, depth_ok; cbn; lia|].
+  split; [split; [reflexivity|split; [repeat constructor|reflexivity]]|].
+  split; [split; [reflexivity|split; [repeat constructor|reflexivity]]|].
+  split; [split; [reflexivity|left; split; reflexivity]|].
+  split; [discriminate|].
+  split; [eexists; vm_compute; reflexivity|].
+  eexists; eexists; split; vm_compute; reflexivity.
+Qed.
+Print Assumptions reset_variant_stale_refuted.
